@@ -78,3 +78,5 @@
 (declare-fun rtKey (Int) Int)                     ; reflect.Type.Key
 (declare-fun rvZeroX (Int) Int)                  ; interface content of reflect.Zero(t)
 (declare-fun rangeCopyOf (Int Int) Int)          ; what genValueRangeArray(node) yields in a frame: the range operand evaluated once, arrays copied (A2)
+(declare-fun rtImplements (Int Int) Bool)          ; reflect.Type.Implements
+(declare-fun rtField (Int Int) Int)                ; reflect.Type.Field(i): location of the field descriptor
